@@ -8,11 +8,11 @@ Known finding (class `simple-operands-different-affine-offsets`): for two SIMPLE
 different affine offsets (degC + K) a+b and b+a do not denote the same amount; Lean: `add_comm_phys_partial`
 carries the excluding hypothesis and `add_comm_affine_counterexample` is the concrete witness.
 
-Open finding candidate (class `derived-operand-affine-unit-exponent-1`, NOT in known_findings.json): inside a
-derived operand a unit with an offset and exponent 1 is converted with its offset instead of being scaled
-((10 degC*m) + (1 m*K) = -262.15 degC.m); Lean: `add_derived_affine_counterexample`.  The model follows the code
-(stream derived-with-affine-unit of the correspondence); the failing-input sweep leaves that stream out so
-that it reports new defects first, but the oracle does flag such an input when it meets one."""
+Repaired defect (class `derived-operand-affine-unit-exponent-1`, fix "unit matching inside a derived quantity
+scales units that have an offset instead of shifting them"): inside a derived operand a unit with an offset and
+exponent 1 was converted with its offset ((10 degC*m) + (1 m*K) gave -262.15 degC.m, now 11); Lean:
+`add_derived_affine_scaled`.  The class is never excused: the stream derived-with-affine-unit is part of the
+correspondence AND of the failing-input sweep, and the oracle reports such an input as a violation."""
 import math
 
 import _alg_common as A
@@ -64,7 +64,7 @@ def _both(ctx, stream, a, b):
         yield from _emit(ctx, stream + "-swapped", op, b, a)
 
 
-def _gen(ctx, salt, max_depth, per_level, n_simple, n_odd, derived_affine=True):
+def _gen(ctx, salt, max_depth, per_level, n_simple, n_odd):
     rng = ctx.fresh_rng("C03" + salt)
     uni = ctx.uni
     levels = A.grow_pool(uni, rng, max_depth, per_level)
@@ -104,11 +104,10 @@ def _gen(ctx, salt, max_depth, per_level, n_simple, n_odd, derived_affine=True):
         lf2 = uni.variant(rng, lf)
         c2 = rng.choice([lf2, ["C", lf2[1], lf2[2], lf2[3], "cap"], ["L", lf2[1], lf[2], lf[3]]])
         yield from _both(ctx, "captioned", c1, c2)
-        if derived_affine:
-            ta = rng.choice(sorted(uni.affine))
-            a, b = uni.leaf(rng, ta, affine=True), uni.leaf(rng, ta, affine=True)
-            x = rng.choice(levels[0])
-            yield from _both(ctx, "derived-with-affine-unit", ["*", a, x], ["*", uni.variant(rng, x), b])
+        ta = rng.choice(sorted(uni.affine))
+        a, b = uni.leaf(rng, ta, affine=True), uni.leaf(rng, ta, affine=True)
+        x = rng.choice(levels[0])
+        yield from _both(ctx, "derived-with-affine-unit", ["*", a, x], ["*", uni.variant(rng, x), b])
 
 
 def cases(ctx):
@@ -119,11 +118,10 @@ def cases(ctx):
 
 
 def search(ctx):
-    # the derived-with-affine stream is left out of the sweep (see the report: open finding candidate)
     if ctx.tier == "quick":
-        yield from _gen(ctx, "search", 3, 120, 200, 40, derived_affine=False)
+        yield from _gen(ctx, "search", 3, 120, 200, 40)
     else:
-        yield from _gen(ctx, "search", 5, 1200, 3000, 500, derived_affine=False)
+        yield from _gen(ctx, "search", 5, 1200, 3000, 500)
 
 
 # ------------------------------------------------------------- the property itself, on the real code only
@@ -268,9 +266,7 @@ def matches_known(entry, case, failure):
     if cls == CLASS_AFFINE:
         return (failure.get("class") == CLASS_AFFINE and failure.get("clause") == "a+b and b+a denote the same amount"
                 and case["_t"]["k"] == "+" and _offsets_differ(case, None))
-    if cls == CLASS_DERIVED_AFFINE:
-        return failure.get("class") == CLASS_DERIVED_AFFINE and _simple_pair(case["_t"]) is None
-    return False
+    return False  # in particular the class of derived operands holding an offset unit is never excused
 
 
 def _leaf_of(spec):
@@ -285,10 +281,6 @@ def replay_finding(entry, ctx):
     rc = entry.get("replay_case") or {}
     if cls == CLASS_AFFINE:
         w = [_leaf_of(rc["a"]), _leaf_of(rc["b"])] if ("a" in rc and "b" in rc) else DEFAULT_WITNESS
-    elif cls == CLASS_DERIVED_AFFINE:
-        m = ["L", float(1.0).hex(), "m", "length"]
-        w = ([["*", _leaf_of(rc["a"]), m], ["*", _leaf_of(rc["b"]), m]] if ("a" in rc and "b" in rc)
-             else [["*", DEFAULT_WITNESS[0], m], ["*", DEFAULT_WITNESS[1], m]])
     else:
         return None
     c = A.make_case("+", w[0], w[1])
